@@ -981,9 +981,14 @@ def run_case(acc, case, seed, cache=None):
     # ---- (j) iterative driver with one iteration == PSFPhotometry ---------------------
     if cfg['driver'] == 'iter':
         ph1, _, _ = build_phot(cfg, s, 'single', aper=True)
-        with warnings.catch_warnings():
-            warnings.simplefilter('ignore')
-            res1 = call_phot(ph1, cfg, s, init)        # the very same input representation
+        try:
+            with warnings.catch_warnings():
+                warnings.simplefilter('ignore')
+                res1 = call_phot(ph1, cfg, s, init)        # the very same input representation
+        except Exception as e:       # the iterative driver accepted this input: PSFPhotometry must as well
+            acc.violation('raises', f'{cfg_tag(dict(cfg, driver="single"))}:{type(e).__name__}', case, repr(e)[:300],
+                          'a result table')
+            return None
         if [c for c in res.colnames if c != 'iter_detected'] != list(res1.colnames):
             acc.violation('iter-equiv', 'columns', case, res.colnames, res1.colnames)
         else:
